@@ -3,7 +3,9 @@ def L(a,b): return '\n'.join(src[a-1:b])
 def sub(text, old, new, count=1):
     assert text.count(old)>=1, ("anchor lost", old)
     return text.replace(old,new,count)
-out=[open('spec.rs').read()]
+import os,sys
+HERE=os.path.dirname(os.path.abspath(__file__))
+out=[open(os.path.join(HERE,'wbtree_spec_vocabulary.rs')).read()]
 
 # ---- DataNode::update_size_internal (lines 23-27)
 t=L(23,27)
@@ -247,7 +249,7 @@ t=sub(t,'''                    // Single rotation
                         reveal(rot_ok);
                     }
                     Self::rotate_right(node)''')
-open('balance_dbg.txt','w').write(t)
+pass
 out.append(t)
 
 # ---- insert_simple (336-389)
@@ -588,28 +590,6 @@ t=sub(t,'''        Self::join(Some(left), min_key, min_value, new_right)''',''' 
         Self::join(Some(left), min_key, min_value, new_right)''')
 out.append(t)
 
-
-# ---- union (613-668)
-t=L(613,668)
-t=sub(t,'''    ) -> Option<Rc<Node<V>>>
-    where
-        F: FnMut(&u32, V, V) -> V,
-    {''','''    ) -> (res: Option<Rc<Node<V>>>)
-    where
-        F: FnMut(&u32, V, V) -> V,
-        requires tb(left), bal(left), tb(right), bal(right),
-            forall|m: F, k: &u32, a: V, b: V| #[trigger] m.requires((k, a, b)),
-        ensures tb(res), bal(res),
-            forall|x: u32| #[trigger] view(res).contains_key(x) <==> (view(left).contains_key(x) || view(right).contains_key(x)),
-            forall|x: u32| view(left).contains_key(x) && !view(right).contains_key(x) ==> #[trigger] view(res)[x] == view(left)[x],
-            forall|x: u32| !view(left).contains_key(x) && view(right).contains_key(x) ==> #[trigger] view(res)[x] == view(right)[x],
-            forall|x: u32| view(left).contains_key(x) && view(right).contains_key(x) ==> exists|m: F| m.ensures((&x, view(left)[x], view(right)[x]), #[trigger] view(res)[x]),
-        decreases nsz(left) + nsz(right),
-    {
-        proof { lemma_bal_unfold(left); lemma_bal_unfold(right); }
-        let ghost left0 = left; let ghost right0 = right;''')
-out.append(t)
-
 out.append('}')
 out.append('''
 pub proof fn lemma_tb_bounds_u32<V: Clone>(t: Tree<V>)
@@ -827,5 +807,5 @@ pub open spec fn okfin<V: Clone>(a: Tree<V>, b: Tree<V>, k: u32) -> bool {
 }
 
 ''')
-out.append(open('tail.rs').read())
-open('t9.rs','w').write('\n'.join(out))
+out.append('} // verus!\nfn main() {}\n')
+open(sys.argv[1] if len(sys.argv)>1 else '/tmp/wbtree_probe.rs','w').write('\n'.join(out))
